@@ -1,5 +1,11 @@
 package gocql
 
+import (
+	"context"
+
+	"github.com/gocql/gocql/internal/streams"
+)
+
 // ---- C03: request frames are exactly what the CQL native protocol specifies ----
 //
 // vDec is an independent decoder written from the protocol specification (v1-v5 as this driver
@@ -684,4 +690,80 @@ func vh_req_batch() {
 	}
 	vAssert(!d.bad && d.pos == len(d.b), "C03/batch/body-consumed-exactly")
 	vObserve("len", len(frame))
+}
+
+// ---- a sequence of requests on ONE connection, through Conn.exec ----
+//
+// The bytes handed to the connection writer by consecutive requests: each frame carries exactly the
+// header flags and body ITS request asked for, whatever the previous request on that connection was
+// (tracing, custom payload). The writer stub plays the server's answer (recv unregisters the call and
+// delivers a response), so exec returns and the next request runs on the same Conn.
+type vSeqWriter struct{}
+
+var vSeqFrames [][]byte
+
+func (vSeqWriter) writeContext(ctx context.Context, p []byte) (int, error) {
+	vSeqFrames = append(vSeqFrames, append([]byte(nil), p...))
+	h := vDecodeHeader(p, vConn.version)
+	if call, ok := vConn.calls[h.stream]; ok && call != nil {
+		delete(vConn.calls, h.stream)
+		vChanPush(call.resp, callResp{framer: &framer{header: &frameHeader{version: protoVersion(vConn.version | 0x80)}}})
+	}
+	return len(p), nil
+}
+
+type vNopTracer struct{}
+
+func (vNopTracer) Trace(traceId []byte) {}
+
+func vh_exec_sequence() {
+	ver := byte(vBound("version"))
+	c := &Conn{version: ver, streams: streams.New(int(ver)), calls: map[int]*callReq{}, w: vSeqWriter{}, logger: vNopLogger{}, errorHandler: vErrHandler{}, conn: &vNetConn{}}
+	c.ctx = &vCtx{done: make(chan struct{})}
+	c.cancel = func() {}
+	vConn = c
+	vSeqFrames = nil
+	type asked struct {
+		stmt    string
+		tracing bool
+		pay     vPay
+		prepare bool
+	}
+	var reqs []asked
+	for i := 0; i < 2; i++ {
+		a := asked{stmt: vStringN("stmt", 1), tracing: vBool("tracing"), pay: vPayload(ver), prepare: vBool("is_prepare")}
+		reqs = append(reqs, a)
+		var fb frameBuilder
+		if a.prepare {
+			fb = &writePrepareFrame{statement: a.stmt, customPayload: a.pay.m}
+		} else {
+			fb = &writeQueryFrame{statement: a.stmt, params: queryParams{consistency: One}, customPayload: a.pay.m}
+		}
+		var tr Tracer
+		if a.tracing {
+			tr = vNopTracer{}
+		}
+		ctx := &vCtx{done: make(chan struct{})}
+		f, err := c.exec(ctx, fb, tr)
+		if a.pay.n == 0 && ver < 4 && err != nil {
+			reqs = reqs[:len(reqs)-1] // an empty payload map before v4 may be refused (nothing is sent)
+			continue
+		}
+		vAssert(err == nil && f != nil, "C03/sequence/request-is-sent-and-answered")
+	}
+	vAssert(len(vSeqFrames) == len(reqs), "C03/sequence/one-frame-per-request")
+	for i := 0; i < len(reqs) && i < len(vSeqFrames); i++ {
+		a := reqs[i]
+		h := vDecodeHeader(vSeqFrames[i], ver)
+		op := byte(0x07)
+		if a.prepare {
+			op = 0x09
+		}
+		vCheckHeader(h, ver, op, h.stream, a.tracing, a.pay)
+		vAssert(h.stream >= 0 && h.stream < c.streams.NumStreams, "C03/header/stream")
+		d := &vDec{b: h.body}
+		d.checkPayload(h, a.pay)
+		vAssert(d.longStr() == a.stmt && !d.bad, "C03/sequence/statement-of-this-request")
+	}
+	vObserve("frames", len(vSeqFrames))
 }
